@@ -12,7 +12,7 @@
 From Coq Require Import ZArith QArith List Bool Arith Lia.
 Import ListNotations.
 From Inf Require Import model.PermM spec.PermS proofs.PermSpecP proofs.PermP proofs.PermQuickP
-  proofs.PermGlynnP proofs.PermTieP proofs.PermBoundAP proofs.PermBoundBP proofs.PermBoundCP.
+  proofs.PermGlynnP proofs.PermIdleP proofs.PermTieP proofs.PermBoundAP proofs.PermBoundBP proofs.PermBoundCP.
 Open Scope Q_scope.
 
 (* ================================================================== *)
@@ -92,7 +92,7 @@ Print Assumptions C02_inf_retis_locked_zero.
 Theorem C02_inf_retis_idle_block : forall rp mi pi off W locks,
   length W = length locks ->
   inf_retis_with rp mi pi off W locks =
-  option_map (reinsert locks)
+  option_map (reinsert locks (length (unlocked W locks)))
     (inf_retis_with rp mi pi (off - count_true (firstn off locks)) (unlocked W locks)
                     (repeat false (length (unlocked W locks)))).
 Proof. exact inf_retis_with_idle_block. Qed.
@@ -188,19 +188,33 @@ Proof. exact inf_retis_eq_Pspec_weighted123_3_idle. Qed.
 Print Assumptions C02_inf_retis_eq_Pspec_weighted123_3_bounded.
 
 (* np.argsort's order among equal keys is machine dependent: for all 0/1 staircase states with up
-   to 4 plus-ensembles and all busy sets, EVERY valid pair of argsort answers gives the result of
-   the stable order the model uses *)
+   to 4 plus-ensembles and all busy sets, EVERY valid pair of argsort answers (a sorting
+   permutation of the keys, indices in range) gives the result of the stable order the model uses *)
 Theorem C02_inf_retis_tie_order_independent_4_bounded : forall rp m ks lk mi pi,
   (1 <= m <= 4)%nat ->
   length ks = m -> (forall k, In k ks -> (1 <= k <= m)%nat) ->
   length lk = S m ->
   let W := stair_matrix ks in
   let locks := lk ++ [true] in
-  is_argsort (minus_keys 1 W locks) mi = true ->
-  is_argsort (pos_keys 1 W locks) pi = true ->
+  is_argsort (minus_keys 1 W locks) mi = true -> (forall i, In i mi -> (i < length mi)%nat) ->
+  is_argsort (pos_keys 1 W locks) pi = true -> (forall i, In i pi -> (i < length pi)%nat) ->
   omat_eqb (inf_retis_with rp mi pi 1 W locks) (inf_retis rp 1 W locks) = true.
 Proof. exact inf_retis_tie_order_independent_4. Qed.
 Print Assumptions C02_inf_retis_tie_order_independent_4_bounded.
+
+(* the same on the block-wise path: weights in {1,2}, up to 3 plus-ensembles *)
+Theorem C02_inf_retis_tie_order_independent_weighted12_3_bounded : forall rp m rows lk mi pi,
+  (1 <= m <= 3)%nat ->
+  length rows = m ->
+  (forall row, In row rows -> (1 <= length row <= m)%nat /\ (forall w, In w row -> In w [1; 2])) ->
+  length lk = S m ->
+  let W := wstair_matrix rows in
+  let locks := lk ++ [true] in
+  is_argsort (minus_keys 1 W locks) mi = true -> (forall i, In i mi -> (i < length mi)%nat) ->
+  is_argsort (pos_keys 1 W locks) pi = true -> (forall i, In i pi -> (i < length pi)%nat) ->
+  omat_eqb (inf_retis_with rp mi pi 1 W locks) (inf_retis rp 1 W locks) = true.
+Proof. exact inf_retis_tie_order_independent_weighted12_3. Qed.
+Print Assumptions C02_inf_retis_tie_order_independent_weighted12_3_bounded.
 
 (* the hypotheses are satisfiable: three plus-ensembles, supports (3,1,3), ensemble 2 busy *)
 Example C02_refinement_example :
